@@ -17,6 +17,7 @@ EXPLANATION = (
     "the zero-length world returns Ready without polling; the 0-tuple body is straight-line Ready; (EXT) FutureExt::join "
     "builds (self, other) in that order. Decides the structural causes of the statement, for all arities and all paths; "
     "completion-order independence follows because every write is positional.")
+EXPLANATION += (' (CTOR) the entry point stores operand K, converted by into_future only, as the child of position K (tuple field / array or Vec element in order); nothing reorders, drops or duplicates operands on the way.')
 ASSUMPTIONS = [
     "each child completes at most once (C03.GUARD/MARK) so counter == 0 <=> all children resolved",
     "MaybeUninit / mem::swap / array iteration behave per core docs",
